@@ -4,11 +4,11 @@
    file system alone.
 
    Code mirrored:
-     yamlpath/commands/yaml_set.py    504-687  main (the write is the last statement)
+     yamlpath/commands/yaml_set.py    499-682  main (the write is the last statement)
                                       194-308  validateargs (sys.exit(1) at 307-308)
-                                      432-501  _try_load_input_file, _delete_nodes, _get_nodes,
+                                      427-496  _try_load_input_file, _delete_nodes, _get_nodes,
                                                _alias_nodes, _ymk_nodes
-                                      416-428  write_output_document: STDOUT branch
+                                      411-421  write_output_document: STDOUT branch
      yamlpath/commands/yaml_merge.py  223-286  validateargs
                                       507-572  main and the exit_state plumbing
                                       483-505  merge_docs (3 = RHS not loaded)
